@@ -120,14 +120,16 @@ static void sec_meta(Ctx& c, uint64_t) {
   bool unique = M.judged;
   if (!m0.finite) { if (unique) c.viol(key("non-finite-result"), cls, wit()); else c.event("meta: non-finite result on a polygon with a non-unique / pole-to-pole edge (not judged)"); return; }
   // errors of half the ellipsoid area on polygons with an edge between exactly opposite meridians get their own key
-  // polygons containing an edge with the signature of a known root cause (rhumb exact prolate near the equator, C09; strongly prolate nearly
-  // equatorial geodesic inverse, C02) report under ONE key per root cause; errors of half the ellipsoid area on polygons with an edge between
-  // exactly opposite meridians get their own suffix
+  // KNOWN-defect regimes (same predicates and order as in the history runner): inside a regime every relation reports under the regime key
+  // with the relation's own key in detail.monitor; errors of half the ellipsoid area on polygons with an edge between exactly opposite
+  // meridians get their own suffix
   bool extra_rheq = false, extra_preq = false;
-  auto half = [&](double err, const char* w, bool extratie = false) { std::string kk = key(w);
-    if (M.nrheq || extra_rheq) return key("relation/prolate-exact-rhumb-near-equator-edge");
-    if (M.npreq || extra_preq) return key("relation/strongly-prolate-near-equatorial-inverse-edge");
-    if ((M.ntie || extratie) && std::fabs(err - 0.5 * A0) <= 1e-6 * A0) kk += "/off-by-half-ellipsoid-area/edge-between-opposite-meridians"; return kk; };
+  auto report = [&](double err, const char* w, const J& d, bool extratie = false) {
+    std::string kk = key(w);
+    if ((M.ntie || extratie) && std::fabs(err - 0.5 * A0) <= 1e-6 * A0) kk += "/off-by-half-ellipsoid-area/edge-between-opposite-meridians";
+    if (env.be == B_RH_EXACT && env.f < 0 && (M.nrheq || extra_rheq)) c.viol("regime:C08/rhumb-exact/prolate-ellipsoid-edge-within-1e-8deg-of-equator", cls, J(d).str("monitor", kk));
+    else if ((env.be == B_EXACT || env.be == B_DELEG) && env.f < -0.2 && (M.npreq || extra_preq)) c.viol("regime:C08/geod-exact/strongly-prolate-ellipsoid-inverse-edge-within-1e-8deg-of-equator", cls, J(d).str("monitor", kk));
+    else c.viol(kk, cls, d); };
   double tolA = env.K * (double)M.tolA, tolP = env.K * (double)M.tolP;
   auto circ = [&](double x, double y) { return (double)circ_dist(x, y, A0); };
 
@@ -137,7 +139,7 @@ static void sec_meta(Ctx& c, uint64_t) {
     Meas m = measure(env, W);
     double ea = std::max(circ(m.As, m0.As), circ(m.Au, m0.Au)), ep = std::fabs(m.per - m0.per);
     c.obs("rotate first vertex: area difference [ulp(area0)]", ea / uA); c.obs("rotate first vertex: perimeter difference [ulp]", ep / ref::ulp_d(m0.per));
-    if (ea > 2 * uA || ep > 2 * ref::ulp_d(m0.per) || m.n != m0.n) c.viol(half(ea, "rotate-first-vertex"), cls, wit().i("k", (long long)k).f("area2", m.As).f("per2", m.per).f("diff_area", ea).f("diff_per", ep));
+    if (ea > 2 * uA || ep > 2 * ref::ulp_d(m0.per) || m.n != m0.n) report(ea, "rotate-first-vertex", wit().i("k", (long long)k).f("area2", m.As).f("per2", m.per).f("diff_area", ea).f("diff_per", ep));
     c.event("law evaluated: rotate first vertex");
   }
   if (!unique) { c.event("meta: polygon has a non-unique (nearly antipodal) edge: uniqueness-dependent relations skipped"); return; }
@@ -150,7 +152,7 @@ static void sec_meta(Ctx& c, uint64_t) {
       Meas m = measure(env, W);
       double ea = std::max(circ(m.As, m0.As), circ(m.Au, m0.Au)), ep = std::fabs(m.per - m0.per);
       c.obs("shift all longitudes: area difference [ulp(area0)]", ea / uA);
-      if (ea > 2 * uA || ep > 2 * ref::ulp_d(m0.per)) c.viol(half(ea, "shift-all-longitudes"), cls, wit().f("shift", sft).f("area2", m.As).f("per2", m.per).f("diff_area", ea).f("diff_per", ep));
+      if (ea > 2 * uA || ep > 2 * ref::ulp_d(m0.per)) report(ea, "shift-all-longitudes", wit().f("shift", sft).f("area2", m.As).f("per2", m.per).f("diff_area", ea).f("diff_per", ep));
       c.event("law evaluated: shift all longitudes by a constant");
     }
   }
@@ -161,7 +163,7 @@ static void sec_meta(Ctx& c, uint64_t) {
       Meas m = measure(env, W);
       double ea = std::max(circ(m.As, m0.As), circ(m.Au, m0.Au)), ep = std::fabs(m.per - m0.per);
       c.obs("add 360k to one longitude: area difference [ulp(area0)]", ea / uA);
-      if (ea > 2 * uA || ep > 2 * ref::ulp_d(m0.per)) c.viol(half(ea, "add-360k-to-one-longitude"), cls, wit().i("vertex", (long long)j).f("k360", kk).f("area2", m.As).f("per2", m.per).f("diff_area", ea).f("diff_per", ep));
+      if (ea > 2 * uA || ep > 2 * ref::ulp_d(m0.per)) report(ea, "add-360k-to-one-longitude", wit().i("vertex", (long long)j).f("k360", kk).f("area2", m.As).f("per2", m.per).f("diff_area", ea).f("diff_per", ep));
       c.event("law evaluated: add 360k to one longitude");
     }
   }
@@ -171,7 +173,7 @@ static void sec_meta(Ctx& c, uint64_t) {
     double ea = circ(m.As, -m0.As), eu = circ(m.Au + m0.Au, 0), ep = std::fabs(m.per - m0.per);
     double T = 2 * tolA + 4 * uA, Tp = 2 * tolP + 4 * ref::ulp_d(m0.per);
     c.obs("reverse order: area error / tolerance", std::max(ea, eu) / T); c.obs("reverse order: perimeter error / tolerance", ep / Tp);
-    if (ea > T || eu > T || ep > Tp) c.viol(half(std::max(ea, eu), "reverse-order"), cls, wit().f("area_rev_signed", m.As).f("area_rev_unsigned", m.Au).f("per_rev", m.per).f("tolA", T));
+    if (ea > T || eu > T || ep > Tp) report(std::max(ea, eu), "reverse-order", wit().f("area_rev_signed", m.As).f("area_rev_unsigned", m.Au).f("per_rev", m.per).f("tolA", T));
     c.event("law evaluated: reverse order");
   }
   // (e) cut along a diagonal
@@ -187,7 +189,7 @@ static void sec_meta(Ctx& c, uint64_t) {
         double ea = circ(m1.As + m2.As, m0.As), ep = std::fabs((m1.per + m2.per) - (m0.per + 2 * (double)d.len));
         double T = 2 * tolA + 4 * td * (double)env.cauth + 6 * uA, Tp = 2 * tolP + 4 * td + 8 * ref::ulp_d(m0.per + 2 * (double)d.len);
         c.obs("cut along a diagonal: area error / tolerance", ea / T); c.obs("cut along a diagonal: perimeter error / tolerance", ep / Tp);
-        if (ea > T || ep > Tp) c.viol(half(ea, "cut-along-diagonal", d.tie), cls, wit().i("i", (long long)i).i("j", (long long)j).f("A1", m1.As).f("A2", m2.As).f("p1", m1.per).f("p2", m2.per).f("diag", (double)d.len).f("err_area", ea).f("tolA", T).f("err_per", ep).f("tolP", Tp));
+        if (ea > T || ep > Tp) report(ea, "cut-along-diagonal", wit().i("i", (long long)i).i("j", (long long)j).f("A1", m1.As).f("A2", m2.As).f("p1", m1.per).f("p2", m2.per).f("diag", (double)d.len).f("err_area", ea).f("tolA", T).f("err_per", ep).f("tolP", Tp), d.tie);
         c.event("law evaluated: cut along a diagonal");
       }
     }
@@ -205,7 +207,7 @@ static void sec_meta(Ctx& c, uint64_t) {
     double Rm = std::max(env.a, env.b) * 1.5, sweep = dm * Rm * (std::tan((double)e1.a12 * M_PI / 360) + std::tan((double)e2.a12 * M_PI / 360));
     double ea = circ(m.As, m0.As), ep = std::fabs(m.per - m0.per), T = sweep + 2 * tolA + 4 * uA, Tp = 2 * dm + 2 * tolP;
     c.obs("pole vertex moved by 1e-9 deg: area change / bound", ea / T); c.obs("pole vertex moved by 1e-9 deg: perimeter change / bound", ep / Tp);
-    if (ea > T || ep > Tp) c.viol(half(ea, "pole-vertex-continuity"), cls, wit().i("vertex", (long long)j).f("area2", m.As).f("per2", m.per).f("bound_area", T));
+    if (ea > T || ep > Tp) report(ea, "pole-vertex-continuity", wit().i("vertex", (long long)j).f("area2", m.As).f("per2", m.per).f("bound_area", T));
     c.event("law evaluated: pole vertex continuity");
     break;
   }
